@@ -91,6 +91,8 @@ var vFieldCases = []vFieldCase{
 	{AUDIT_TTY, "tty pid=1 uid=0 auid=0 ses=1 major=136 minor=0 comm=\"bash\" ", "data", ""},
 	{AUDIT_USER_TTY, "pid=1 uid=0 auid=0 ses=1 ", "data", ""},
 	{AUDIT_USER_LOGIN, "pid=1 uid=0 auid=4294967295 ses=4294967295 msg='op=login ", "acct", " exe=\"/usr/sbin/sshd\" hostname=? addr=10.0.0.1 terminal=ssh res=failed'"},
+	// appended later (indices above are referenced from checks.json): the same keys in the other record types that carry them
+	{AUDIT_USER_CMD, "pid=3 uid=0 auid=1000 ses=1 msg='", "cwd", " cmd=\"ls\" terminal=pts/0 res=success'"},
 }
 
 // VH_EncodedField: exe, cwd, name, proctitle, cmd, data, acct.
